@@ -50,6 +50,8 @@ func buildReport(eng *Engine, ps *PropSpec, vcs []*VC, obls []*Obligation, funcs
 	var samples []sample
 	var slowest []sample
 	kinds := map[string]int{}
+	retTotal, retLive := map[string]int{}, map[string]int{}
+	var deadRets []*Obligation
 	for _, o := range obls {
 		res := o.Result
 		if res == nil {
@@ -58,10 +60,23 @@ func buildReport(eng *Engine, ps *PropSpec, vcs []*VC, obls []*Obligation, funcs
 		sm := sample{o.Name, o.Kind, o.Pos, o.Desc, res.Status, res.Solver, res.Ms}
 		if o.Cover {
 			nCover++
+			isRet := strings.HasPrefix(o.Kind, "cover-ret")
+			if isRet {
+				retTotal[o.Func]++
+			}
 			if res.Status == "sat" || res.Status == "unknown" || res.Status == "timeout" {
 				nCoverOK++
+				if isRet {
+					retLive[o.Func]++
+				}
 			} else if res.Status == "unsat" {
-				r.vacuous = append(r.vacuous, o)
+				if isRet {
+					// an unreachable return (e.g. a defensive error path) is not vacuity as long as some
+					// return of the function is reachable
+					deadRets = append(deadRets, o)
+				} else {
+					r.vacuous = append(r.vacuous, o)
+				}
 			} else {
 				r.errors = append(r.errors, o)
 			}
@@ -90,6 +105,15 @@ func buildReport(eng *Engine, ps *PropSpec, vcs []*VC, obls []*Obligation, funcs
 		}
 		slowest = append(slowest, sm)
 	}
+	var deadNames []string
+	for _, o := range deadRets {
+		if retLive[o.Func] == 0 {
+			r.vacuous = append(r.vacuous, o)
+		} else {
+			deadNames = append(deadNames, o.Name)
+		}
+	}
+	ev.Coverage["unreachable_returns"] = deadNames
 	sort.Slice(slowest, func(i, j int) bool { return slowest[i].Ms > slowest[j].Ms })
 	if len(slowest) > 5 {
 		slowest = slowest[:5]
